@@ -642,7 +642,7 @@ def check_graph(ctx, run, A, directed, family, tier):
                      replay("assortativity", str(exp), ass))
 
     # ---- betweenness (igraph, directed or not) -----------------------------------------------
-    if n and (small or tier == "thorough" or n <= 20):
+    if n and (small or n <= (26 if tier == "thorough" else 20)):
         oracle_vec("betweenness", orc.betweenness())
 
     # ---- local vulnerability: (E - E_i) / E with E_i the efficiency without node i -------------
@@ -734,7 +734,7 @@ def check_graph(ctx, run, A, directed, family, tier):
             ctx.count(f"kernel:cliquishness{order}")
 
     # ---- link betweenness --------------------------------------------------------------------------
-    if n and (small or n <= 20 or tier == "thorough"):
+    if n and (small or n <= (26 if tier == "thorough" else 20)):
         st, LB = call("link_betweenness")
         ctx.count("oracle:link_betweenness")
         if st == "ok":
@@ -756,7 +756,7 @@ def check_graph(ctx, run, A, directed, family, tier):
                      replay("link_betweenness", "matrix", LB))
 
     # ---- interregional / n.s.i. betweenness: kernel _nsi_betweenness ---------------------------------
-    if n and (small or n <= 20 or tier == "thorough"):
+    if n and (small or n <= (26 if tier == "thorough" else 20)):
         rng = ctx.rng
         nodes = list(range(n))
         choices = [(nodes, nodes)]
@@ -804,7 +804,7 @@ def directed_extras(ctx, net, orc, A, sig, replay):
         ctx.fail(sig("local_clustering"), "local_clustering of a directed network differs from the clustering "
                  "of its undirected projection", replay("local_clustering", [str(e) for e in exp],
                                                         fl(got) if st == "ok" else got))
-    if n <= 20:
+    if n <= 16:
         st, LB = quiet(net.link_betweenness)
         ctx.count("oracle:directed:link_betweenness")
         expL = orc.link_betweenness()
@@ -1042,7 +1042,7 @@ def run(ctx):
             graphs.append(("exhaustive-sample", random_graph(rng, 4, rng.choice([0.3, 0.5, 0.7]), True), True))
     for name, A in structured(rng):
         graphs.append((name, A, False))
-    nrand = 60 if quick else 1500
+    nrand = 60 if quick else 400
     for c in range(nrand):
         n = rng.randrange(6, 41) if (c % 3 or not quick) else rng.randrange(6, 13)
         if quick and n > 24 and c % 2:
